@@ -223,3 +223,47 @@ func VerifH_C06_postprocess() {
 		verifrt.Assert(item.GetURL().GetBody() == nil, "C16 the item no longer holds its body after post-processing")
 	}
 }
+
+// VerifH_C16_close_bodies: after a seed has been through the post-processor no node of its tree, at any depth and in
+// any status, still holds an open body.
+func VerifH_C16_close_bodies() {
+	seed := models.NewItem("s", c06URL("http://site.example/"), "")
+	var all []*models.Item
+	var bodies []*c06Body
+	give := func(it *models.Item, name string) {
+		all = append(all, it)
+		if verifrt.Choice("has-body-"+name, 2) == 1 {
+			b := &c06Body{Reader: bytes.NewReader([]byte("x"))}
+			it.GetURL().SetBody(b)
+			bodies = append(bodies, b)
+		} else {
+			bodies = append(bodies, nil)
+		}
+	}
+	give(seed, "seed")
+	n := verifrt.Choice("children", 3)
+	for i := 0; i < n; i++ {
+		c := models.NewItem("c"+string(rune('0'+i)), c06URL("http://site.example/c"+string(rune('0'+i))), "")
+		if err := seed.AddChild(c, models.ItemGotChildren); err != nil {
+			panic(err)
+		}
+		c.SetStatus(models.ItemState(verifrt.IntRange("status", 0, 7)))
+		give(c, "c"+string(rune('0'+i)))
+		if i == 0 && verifrt.Choice("grandchild", 2) == 1 {
+			g := models.NewItem("g", c06URL("http://site.example/g"), "")
+			if err := c.AddChild(g, models.ItemGotChildren); err != nil {
+				panic(err)
+			}
+			give(g, "g")
+			verifrt.Cover("three-levels")
+		}
+	}
+	closeBodies(seed)
+	for i, it := range all {
+		verifrt.Assert(it.GetURL().GetBody() == nil, "C16 no node of a post-processed seed holds a body")
+		if bodies[i] != nil {
+			verifrt.Cover("body-closed")
+			verifrt.Assert(bodies[i].closed == 1, "C16 every body of the tree is closed exactly once")
+		}
+	}
+}
